@@ -572,15 +572,17 @@ func (bc *Blockchain) AddBlock(tx adb.Txn, bl *block.Block, hash util.Hash) erro
 func (bc *Blockchain) addAltchainBlock(txn adb.Txn, bl *block.Block, hash [32]byte, stats *Stats) error {
 	Log.Infof("Adding block as alternative on height: %d hash: %x diff: %s", bl.Height, hash, bl.Difficulty)
 
-	// check if the block extends one of the tips
+	// check if the block extends one of the tips (the tips are filed under the hash of the tip block)
 	extendTip := stats.Tips[bl.PrevHash()]
 
-	if extendTip != nil {
-		// block extends one of the tips, update that tip
+	if extendTip != nil && extendTip.Hash == bl.PrevHash() {
+		// block extends one of the tips, update that tip and file it under its new hash
 		Log.Debugf("block %x extends tip %x", hash, extendTip.Hash)
+		delete(stats.Tips, bl.PrevHash())
 		extendTip.Hash = hash
-		extendTip.Height++
+		extendTip.Height = bl.Height
 		extendTip.CumulativeDiff = bl.CumulativeDiff
+		stats.Tips[hash] = extendTip
 	} else {
 		// if the block doesn't extend tips, then it's creating a new tip
 		Log.Debugf("new tip: %x", hash)
